@@ -245,3 +245,67 @@ def ukf_permutation(vc):
     f1.update(e1["obs"])
     f2.update(e2["obs"][::-1])
     vc.ensure("O-C16-perm.posterior", vc.And(vc.eq(f1.est_x, f2.est_x, 1e-4), vc.eq(f1.est_p, f2.est_p, 1e-4)))
+
+
+@obligation("C16", "filter_bounded", ensures=["B-C16-filter.permutation", "B-C16-filter.whole-turns", "B-C16-filter.wrap-point", "B-C16-filter.innovation-range"],
+            fns=[UK + "UnscentedKalmanFilter.update", UK + "UnscentedKalmanFilter.forecast", UK + "UnscentedKalmanFilter.calculateMeasurementMatrix", UK + "UnscentedKalmanFilter.calcMeasurementMean",
+                 M + "residuals", M + "angularMean"], mode="R", native_only=True, samples=150,
+            bounded="BOUNDED stand-in, not a proof: 150 (quick) / 1500 (thorough) random cases per run: state dimension 3, 1..4 stacked observations each with 1..3 components of mixed kind (angle in [0,2pi), angle in "
+                    "[-pi,pi), linear), predicted angles placed on or next to the 0/360 and +-180 degree seams, up to 7 whole turns added, every permutation of the stack; the proofs above cover one angular component and two stacked scalars",
+            note="the real UKF update on one prior with the same information presented differently: (i) the observations stacked in any order, (ii) whole turns added to the measured angles, (iii) every angular component's wrap point "
+                 "moved by a common offset (measurement function and measured value shifted together, re-wrapped into the component's window) - posterior mean and covariance agree to rounding, and every angular innovation lies in (-pi, pi]")
+def filter_bounded(vc):
+    from resonaate.estimation.kalman.unscented_kalman_filter import UnscentedKalmanFilter
+    from resonaate.physics.measurements import IsAngle
+    rng = np.random.default_rng(vc.int("seed", 0, 10 ** 9))
+    N = 3
+    n_obs = vc.int("stack", 1, 4)
+    x = rng.normal(size=N)
+    A = rng.normal(size=(N, N)) * 0.02
+    P = A @ A.T + 1e-4 * np.eye(N)
+    win = {IsAngle.ANGLE_0_2PI: (0.0, 2 * np.pi), IsAngle.ANGLE_NEG_PI_PI: (-np.pi, np.pi)}
+    wrapw = lambda a, k: (a - win[k][0]) % (2 * np.pi) + win[k][0]
+    specs = []
+    for _ in range(n_obs):
+        M_ = int(rng.integers(1, 4))
+        kinds = [IsAngle(int(rng.integers(1, 4))) for _ in range(M_)]
+        H = rng.normal(size=(M_, N))
+        seam = np.array([rng.choice([0.0, np.pi, -np.pi, 1.0]) for _ in range(M_)])  # where the predicted angle sits
+        off = seam - H @ x + rng.normal(size=M_) * 1e-3
+        R = np.diag(rng.uniform(1e-5, 1e-3, size=M_))
+        noise = rng.normal(size=M_) * 0.01
+        specs.append((kinds, H, off, R, noise))
+
+    def run(order, turns=0, shift=0.0):
+        f = UnscentedKalmanFilter(1, 0.0, x.copy(), P.copy(), None, np.zeros((N, N)), None, False, False, True, 0.6, 2.0, 0.5)
+        f._debugChecks = lambda obs: None
+        f.pred_x, f.pred_p = x.copy(), P.copy()
+        f.sigma_points = np.zeros((N, 2 * N + 1))
+        f.sigma_x_res = np.zeros((N, 2 * N + 1))
+        obs = []
+        for i in order:
+            kinds, H, off, R, noise = specs[i]
+
+            class Meas:
+                angular_values = list(kinds)
+
+                def calculateMeasurement(self, sensor_eci, state, utc, noisy=False, H=H, off=off, kinds=kinds):
+                    vals = H @ state + off
+                    return {f"c{j}": (wrapw(vals[j] + shift, kinds[j]) if kinds[j] != IsAngle.NOT_ANGLE else vals[j]) for j in range(len(vals))}
+            truth = H @ x + off + noise
+            y = np.array([(wrapw(truth[j] + shift, kinds[j]) + 2 * np.pi * turns) if kinds[j] != IsAngle.NOT_ANGLE else truth[j] for j in range(len(truth))])
+            obs.append(_NS(julian_date=2459000.5, sensor_eci=None, measurement=Meas(), r_matrix=R, measurement_states=y))
+        f.update(obs)
+        return f
+    import itertools as it
+    base = run(list(range(n_obs)))
+    same = lambda a, b: bool(np.allclose(a.est_x, b.est_x, rtol=1e-6, atol=1e-8) and np.allclose(a.est_p, b.est_p, rtol=1e-6, atol=1e-10))
+    perms = list(it.permutations(range(n_obs)))
+    vc.ensure("B-C16-filter.permutation", all(same(base, run(list(p))) for p in perms[1:]))
+    k = vc.int("turns", -7, 7)
+    vc.ensure("B-C16-filter.whole-turns", same(base, run(list(range(n_obs)), turns=k)))
+    shift = vc.real("wrap_shift", -3.2, 3.2)
+    vc.ensure("B-C16-filter.wrap-point", same(base, run(list(range(n_obs)), shift=shift)))
+    ang = np.array([kd != IsAngle.NOT_ANGLE for i in range(n_obs) for kd in specs[i][0]])
+    inn = np.asarray(base.innovation, dtype=float)
+    vc.ensure("B-C16-filter.innovation-range", bool(np.all((inn[ang] > -np.pi) & (inn[ang] <= np.pi))))
